@@ -67,27 +67,43 @@ def _split_top_commas(s):
 
 
 def read_display_arms(dump_text: str, error_type: str):
-    """{variant: {'fmt':…, 'name_arg':…, 'bound_arg':…}} read from `impl Display for <error_type>`."""
+    """{variant: {'fmt':…, 'name_arg':…, 'bound_arg':…}} read from `impl Display for <error_type>`.
+    Accepts `E::V => write!(f, "..", args)` as well as `Self::V => f.write_fmt(format_args!("..", args))`
+    and similar shapes: the format string is the first string literal of the arm, its arguments are
+    the remaining arguments of the macro call that contains it."""
     sc = Scan(dump_text)
     s = dump_text
-    m = re.search(r'impl\s*::core::fmt::Display\s+for\s+' + re.escape(error_type) + r'\s*\{', s)
+    m = re.search(r'impl\s*(?:::)?core::fmt::Display\s+for\s+' + re.escape(error_type) + r'\s*\{', s)
     if not m:
         return None
     start = m.end() - 1
     end = sc.braces[start]
-    body = s[start:end]
     arms = {}
-    for am in re.finditer(re.escape(error_type) + r'::([A-Za-z]+)\s*=>\s*(\{\s*)?write!\s*\(', body):
+    heads = list(re.finditer(r'(?:' + re.escape(error_type) + r'|Self)\s*::\s*([A-Za-z]+)\s*=>', s[start:end]))
+    for i, am in enumerate(heads):
         variant = am.group(1)
-        po = start + am.end() - 1
-        pc = sc.parens[po]
-        args = _split_top_commas(s[po + 1:pc])
-        if len(args) < 2:
+        a0 = start + am.end()
+        a1 = start + heads[i + 1].start() if i + 1 < len(heads) else end
+        # first string literal of the arm
+        q = -1
+        for j in range(a0, a1):
+            if s[j] == '"' and not sc.mask[j] and (j == 0 or sc.mask[j - 1]):
+                q = j
+                break
+        if q < 0:
             continue
-        fmt = args[1]
-        arms[variant] = {'fmt': fmt[1:-1] if fmt.startswith('"') else fmt,
-                         'name_arg': args[2] if len(args) > 2 else '',
-                         'bound_arg': re.sub(r'\s+', ' ', args[3]) if len(args) > 3 else ''}
+        # the innermost parenthesis group containing it
+        po = max((o for o, cl in sc.parens.items() if o < q < cl and o >= a0), default=None)
+        if po is None:
+            continue
+        args = _split_top_commas(s[po + 1:sc.parens[po]])
+        k = next((idx for idx, x in enumerate(args) if x.startswith('"')), None)
+        if k is None:
+            continue
+        fmt = args[k]
+        rest = args[k + 1:]
+        arms[variant] = {'fmt': fmt[1:-1], 'name_arg': rest[0] if rest else '',
+                         'bound_arg': re.sub(r'\s+', ' ', rest[1]) if len(rest) > 1 else ''}
     return arms
 
 
